@@ -425,11 +425,11 @@ def main():
     ck.trusted = TRUSTED_DEFAULT + ['the Dist / Between / Core models used by the imported corollaries are tied to /repo by the C03 / C08 / C15 checks, not by this one']
     # T-gen: whole bodies of the clustering / transitivity, betweenness (bin and wei) and binary efficiency routines re-extracted from
     # /repo's current source; the C10 theorems relate exactly the model functions these are tied to
-    ck.cov['cores'] = cores.generate(families=['clust', 'betw', 'eff'])
+    ck.cov['cores'] = cores.generate(families=['clust', 'betw', 'eff', 'pinmeas', 'pindist', 'pinwalk'])
     for p_ in ck.cov['cores']['problems']:
         ck.corr_break('core extractor (translate/cores.py)', p_)
     ok = ck.lean_gate(['BctVerif.Props.C10'], extra_modules=['BctVerif.Model.Cluster', 'BctVerif.Model.LocalEff', 'BctVerif.Model.Measures'])
-    ck.lean_gate([], gen_modules=['BctVerif.Gen.CoresClust', 'BctVerif.Gen.CoresBetw', 'BctVerif.Gen.CoresEff'])
+    ck.lean_gate([], gen_modules=['BctVerif.Gen.CoresClust', 'BctVerif.Gen.CoresBetw', 'BctVerif.Gen.CoresEff', 'BctVerif.Gen.CoresPinMeas', 'BctVerif.Gen.CoresPinDist', 'BctVerif.Gen.CoresPinWalk'])
     if ck.tier == 'thorough' and ok:
         ck.leanchecker(['BctVerif.Props.C10', 'BctVerif.Model.Cluster', 'BctVerif.Model.LocalEff'])
     if ck.replay:
